@@ -139,15 +139,46 @@ pub fn check_case(case: &MapCase, st: &mut Stats) -> Check {
     Ok(())
 }
 
+pub fn check_corpus(c: &CorpusAstCase, st: &mut Stats) -> Check {
+    let Some((bytes, ast)) = load_corpus_ast(c)? else {
+        st.class("corpus file not fully classified by the strict recogniser (skipped)");
+        return Ok(());
+    };
+    st.class("corpus file checked against the reference model");
+    let model = Model::new(&ast);
+    let u = sampled_universe(&ast, c.max_classes, c.pick);
+    let case_hash = crate::engine::fnv64(&bytes) ^ c.pick;
+    st.sample(|| serde_json::json!({"corpus file": c.path, "crlf": c.crlf, "classes": ast.blocks.len(), "classes sampled": u.known_classes.len(), "methods sampled": u.known_methods.len()}));
+    let m_plain = mapper(&bytes, false)?;
+    let buf = write_cache(&bytes)?;
+    let cache = parse_cache(&buf)?;
+    let impls: [&dyn Retracer; 2] = [&m_plain, &cache];
+    for (ii, r) in impls.into_iter().enumerate() {
+        no_panic("query", || {
+            let mut scratch = Stats::new();
+            let target: &mut Stats = if ii == 0 { st } else { &mut scratch };
+            check_class_model(r, &model, &u, case_hash, target)?;
+            check_lines_model(r, &model, &u, case_hash, target, |_, _, _, _, _| {})?;
+            if ii != 0 {
+                st.evaluations += scratch.evaluations;
+            }
+            Ok(())
+        })?;
+    }
+    Ok(())
+}
+
 pub fn run(ctx: &Ctx) -> Report {
     let mut rep = Report::new(ID, "exploration", ctx);
-    rep.rule = "Cases: grammar-generated mapping ASTs (representable domain; inline groups, overlapping/inverted/zero ranges, duplicate class names, sourceFile headers anywhere incl. R8$$SyntheticClass, foreign classes, noise lines, header/field records anywhere), each in 3 renderings (as generated; other line ending with noise removed; blocks permuted when names are distinct, else CR-only). Oracle: reference retrace model computed from the AST. Each rendering x {mapper, mapper with param index, cache} is checked on the complete by-line universe (all known classes x methods x lines 0..66 + every range boundary +-1 + interior + 2^32-2..2^32, 2^64-1 x file present/absent, plus unknown/near-miss names). evaluations = single query comparisons against the model. Non-trivial = distinct (case, query) with non-empty model answer, or known class+method with every entry filtered by range.".into();
+    rep.rule = "Cases: grammar-generated mapping ASTs (representable domain; inline groups, overlapping/inverted/zero ranges, duplicate class names, sourceFile headers anywhere incl. R8$$SyntheticClass, foreign classes, noise lines, header/field records anywhere), each in 3 renderings (as generated; other line ending with noise removed; blocks permuted when names are distinct, else CR-only). Corpus files of /repo/tests/res (LF and CRLF) are converted to the AST by an independent strict line recogniser and checked the same way on a sample of their classes. Oracle: reference retrace model computed from the AST. Each rendering x {mapper, mapper with param index, cache} is checked on the complete by-line universe (all known classes x methods x lines 0..66 + every range boundary +-1 + interior + 2^32-2..2^32, 2^64-1 x file present/absent, plus unknown/near-miss names). evaluations = single query comparisons against the model. Non-trivial = distinct (case, query) with non-empty model answer, or known class+method with every entry filtered by range.".into();
     rep.assumptions = vec![
         "model formulas are those of the property statement; the original-line rule is cross-checked mapper vs cache".into(),
         "cache buffers are 8-byte aligned".into(),
     ];
     let n = ctx.cases(6000, 60_000);
     rep.run_stage("ast", || map_case(&cfg()), n, check_case);
+    let corpus = corpus_ast_cases(10, 40, 6, ctx);
+    rep.run_enum("corpus", &corpus, check_corpus);
     rep
 }
 
@@ -155,6 +186,7 @@ pub fn replay(stage: &str, case: &Value) -> Check {
     let mut st = Stats::new();
     match stage {
         "ast" => check_case(&serde_json::from_value(case.clone()).map_err(|e| Fail::new("harness-replay", e.to_string()))?, &mut st),
+        "corpus" => check_corpus(&serde_json::from_value(case.clone()).map_err(|e| Fail::new("harness-replay", e.to_string()))?, &mut st),
         _ => Err(Fail::new("harness-replay", format!("unknown stage {stage}"))),
     }
 }
